@@ -309,6 +309,42 @@ enum Res {
     UTimeout,
 }
 
+fn kind(r: &Option<Res>) -> &'static str {
+    match r {
+        None => "pending",
+        Some(Res::Ok(_)) => "Ok",
+        Some(Res::TimeoutWait) => "TimeoutWait",
+        Some(Res::TimeoutCreate) => "TimeoutCreate",
+        Some(Res::Closed) => "Closed",
+        Some(Res::NoRuntime) => "NoRuntime",
+        Some(Res::Backend) => "Backend",
+        Some(Res::UTimeout) => "UTimeout",
+    }
+}
+
+/// The virtual-clock interpreter also serves as a stage of other properties' checks (calls that
+/// time out are part of their quantifiers). There only the deviations that contradict *that*
+/// property's statement count; everything else is C10's business and ends the case unjudged.
+fn relevant(prop: &str, oracle: &str, o: &Outcome) -> bool {
+    let closed_involved = o.closed || matches!(o.pair, Some((a, b)) if a == "Closed" || b == "Closed");
+    match prop {
+        "C10" => true,
+        // more objects than max_size
+        "C01" => oracle == "too-many-live-objects",
+        // capacity lost / a slot kept by a call that timed out; get() never panics
+        "C02" => matches!(oracle, "slot-not-released" | "panic"),
+        "C03" => matches!(oracle, "slot-not-released" | "object-fate-mismatch"),
+        // rejected (timed-out) objects are discarded and never handed out; documented errors only
+        "C04" => matches!(oracle, "object-fate-mismatch" | "undocumented-error") || (oracle == "timing-model-mismatch" && o.other_object),
+        // waiters and later callers get Closed, the closed pool keeps nothing
+        "C06" => (oracle == "timing-model-mismatch" && closed_involved) || (oracle == "object-fate-mismatch" && o.closed),
+        // unmanaged: never a panic, Closed after close()
+        "C12" => matches!(oracle, "panic" | "undocumented-error") || (oracle == "timing-model-mismatch" && closed_involved),
+        "C05" => matches!(oracle, "try-add-failed"),
+        _ => true,
+    }
+}
+
 #[derive(Clone, Debug, PartialEq, Eq)]
 enum Phase {
     /// a slot was handed to this waiter but it has not been polled since
@@ -762,6 +798,12 @@ fn res_of(r: &Result<managed::Object<Mgr>, PoolError<TErr>>) -> Result<Res, Stri
 
 struct Outcome {
     violation: Option<(String, String)>,
+    /// for a result mismatch: (what the pool answered, what the model expects), as kinds
+    pair: Option<(&'static str, &'static str)>,
+    /// both answers were objects, but different ones
+    other_object: bool,
+    /// the pool had been closed when the violation was seen
+    closed: bool,
     labels: Vec<String>,
     nontrivial: bool,
     trace: Vec<String>,
@@ -782,6 +824,9 @@ fn run_managed(case: &Case) -> Outcome {
     })));
     let mut out = Outcome {
         violation: None,
+        pair: None,
+        other_object: false,
+        closed: false,
         labels: vec![],
         nontrivial: false,
         trace: vec![],
@@ -941,6 +986,9 @@ async fn run_managed_body(case: &Case, world: Arc<World>, out: &mut Outcome) {
                 };
                 if real != want {
                     let phase = model.gets[gi].phase.clone();
+                    out.pair = Some((kind(&real), kind(&want)));
+                    out.other_object = matches!((&real, &want), (Some(Res::Ok(a)), Some(Res::Ok(b))) if a != b);
+                    out.closed = model.closed;
                     fail!(
                         "timing-model-mismatch",
                         "{} (clock {} ms): get #{} with timeouts {:?} is {:?} but the reference model says {:?}",
@@ -953,6 +1001,11 @@ async fn run_managed_body(case: &Case, world: Arc<World>, out: &mut Outcome) {
                 let w = world.w();
                 (w.destroyed.clone(), w.detached.clone())
             };
+            out.closed = model.closed;
+            let live = wd.iter().filter(|d| !**d).count();
+            if live > max {
+                fail!("too-many-live-objects", "{} (clock {} ms): {} objects are alive, max_size is {}", $at, model.now, live, max);
+            }
             for (id, d) in wd.iter().enumerate() {
                 let expect = model.destroyed.contains(&(id as u32));
                 if *d != expect {
@@ -1169,6 +1222,9 @@ type UGetFut = Pin<Box<dyn Future<Output = Result<unmanaged::Object<u32>, unmana
 fn run_unmanaged(case: &Case) -> Outcome {
     let mut out = Outcome {
         violation: None,
+        pair: None,
+        other_object: false,
+        closed: false,
         labels: vec![],
         nontrivial: false,
         trace: vec![],
@@ -1283,6 +1339,8 @@ async fn run_unmanaged_body(case: &Case, out: &mut Outcome, trace: &mut Vec<Stri
         ($at:expr) => {{
             for gi in 0..gets.len() {
                 if gets[gi].done != expect[gi] {
+                    out.pair = Some((gets[gi].done.unwrap_or("pending"), expect[gi].unwrap_or("pending")));
+                    out.closed = closed;
                     fail!(
                         "timing-model-mismatch",
                         "{} (clock {} ms): unmanaged get #{} is {:?} but the reference model says {:?}",
@@ -1625,9 +1683,15 @@ impl Engine for Tsim {
         }]
     }
 
-    fn run(_ctx: &Ctx, case: &Case) -> Report {
-        let o = if case.unmanaged { run_unmanaged(case) } else { run_managed(case) };
-        let mut labels = o.labels;
+    fn run(ctx: &Ctx, case: &Case) -> Report {
+        let mut o = if case.unmanaged { run_unmanaged(case) } else { run_managed(case) };
+        if let Some((oracle, _)) = &o.violation {
+            if !relevant(&ctx.prop, oracle, &o) {
+                o.labels.push(format!("outside-this-property:{}", oracle));
+                o.violation = None;
+            }
+        }
+        let mut labels = std::mem::take(&mut o.labels);
         labels.push(format!("{}:{}", if case.unmanaged { "unmanaged" } else { "managed" }, if case.runtime { "runtime" } else { "no-runtime" }));
         labels.sort();
         labels.dedup();
